@@ -23,7 +23,7 @@ LEVEL_NOTE = ('payloads beyond the patterns are not explored; built-in payloads 
 RULE = ('PEL = PH UH <section> MT; section kinds UD, ED, 9 hexdump-only types, 4 unknown ids; payload lengths '
         '1..48,255,256,4095,65527 x 3 patterns + boundary bytes x 16 columns; identity = 12 creators x 7 components x 11 '
         'subtypes x 4 versions x plugins on/off; 11 parser behaviours x UD/ED x 3 creators x 4 payloads; built-in JSON = '
-        '9 value shapes x NUL pad 0..3 x trailing blanks; built-in text = all strings <= 4 over a 7-symbol alphabet + '
+        '9 value shapes x NUL pad 0..3 x trailing blanks; built-in text = all strings <= 4 over a 12-symbol alphabet (incl. every character str.splitlines would also break on) + '
         'long lines. Non-trivial: every case (payload non-empty); distinct by case spec.')
 ASSUMPTIONS = ['a parser returning JSON null or an empty string "returns nothing"']
 
@@ -38,7 +38,7 @@ HEXONLY = ['DH', 'SW', 'LR', 'HM', 'EP', 'IE', 'MI', 'CH', 'EI']
 UNKNOWN = ['ZZ', 'ID', 'ud', '\x01\x02']
 LENGTHS = list(range(1, 49)) + [255, 256, 4095, 65527]
 SENTINEL = {'t': 'MT', 'mtm': 'SENTINEL', 'sn': 'AFTER'}
-TEXT_SYMS = ['a', ' ', '\n', '\t', '\x7f', 'é', '\0']
+TEXT_SYMS = ['a', ' ', '\n', '\t', '\x7f', 'é', '\0', '\r', '\x0c', '\x1d', '\u0085', '\u2028']
 JSON_VALUES = [{'k': 'v'}, {'outer': {'inner': [1, 2, {'x': None}]}, 'b': True}, [1, 'two', 3.5], 'just a string', 42,
                True, None, {}, []]
 
@@ -58,8 +58,8 @@ def behaviour_table():
 
 def bounds(tier):
     return {'payload_lengths': '1..48,255,256,4095,65527', 'identity_tuples': len(CREATORS) * len(COMPS) * len(SUBS) * len(VERS),
-            'behaviours': len(BEHS), 'text_strings': 'all of length <= 4 over 7 symbols' if tier == 'thorough'
-            else 'all of length <= 3 over 7 symbols'}
+            'behaviours': len(BEHS), 'text_strings': 'all of length <= 4 over 12 symbols' if tier == 'thorough'
+            else 'all of length <= 3 over 12 symbols'}
 
 
 def plan(tier, seed):
